@@ -17,7 +17,7 @@ EXPLANATION = (
     'exporter -> bus -> caller (four encode/decode hops) and must run the method once with equal arguments and complete with '
     'the equal value, or with a RemoteError mirroring the raised exception. sched: one or two concurrent calls under every '
     'delivery schedule up to the bound (which link delivers next, whole or cut after 1 / 16 bytes), selector-driven.')
-BOUNDS = {'quick': 'values: 2 clients, 1 call, 4 method shapes x 2 proxy kinds; sched: 2-3 clients, 1-2 concurrent calls, first 4 scheduling decisions free (6 options each)',
+BOUNDS = {'quick': 'values: 2 clients, 1 call, 7 method shapes x 2 proxy kinds; sched: 2-3 clients, 1-2 concurrent calls, first 4 scheduling decisions free (6 options each)',
           'thorough': 'sched: first 5 scheduling decisions free'}
 ASSUMPTIONS = ['"any number of clients / every interleaving" is cut to 2-3 clients and the first 4-5 scheduling decisions (later ones: first pending link, whole)',
                'authentication is skipped on both sides (C06/C07)', 'argument values beyond int32 / byte / one character are covered per hop by C01-C03']
@@ -26,7 +26,7 @@ STUBS = ['in-memory pipes between FakeTransports', 'task.Clock as reactor']
 
 def obligations(tier):
     obs = []
-    for kind in ('swap', 'mixed', 'raise', 'void'):
+    for kind in ('swap', 'mixed', 'raise', 'void', 'list1', 'struct1', 'list2'):
         for intro in (False, True):
             obs.append(Ob('values:%s:%s' % (kind, 'introspected' if intro else 'explicit'), 'values',
                           {'kind': kind, 'intro': intro}, timeout=900, path_timeout=120, twin=True, functions=FUNCS,
@@ -118,7 +118,8 @@ def _mk_exported():
     from txdbus import objects
     from txdbus.interface import DBusInterface, Method
     I = DBusInterface('org.t.Calc', Method('Swap', 'ii', 'ii'), Method('Mixed', 'ys', 'sy'), Method('Boom', 'i', 'i'),
-                      Method('Void', '', ''), Method('Tag', 's', 's'))
+                      Method('Void', '', ''), Method('Tag', 's', 's'), Method('One', 'i', 'ai'),
+                      Method('Wrap', 'i', '(i)'), Method('Two', 'ii', 'ai'))
 
     class E(objects.DBusObject):
         dbusInterfaces = [I]
@@ -141,6 +142,18 @@ def _mk_exported():
 
         def dbus_Void(self):
             self.log.append(('Void',))
+
+        def dbus_One(self, a):
+            self.log.append(('One', a))
+            return [a]
+
+        def dbus_Wrap(self, a):
+            self.log.append(('Wrap', a))
+            return (a,)
+
+        def dbus_Two(self, a, b):
+            self.log.append(('Two', a, b))
+            return [a, b]
 
         def dbus_Tag(self, s):
             self.log.append(('Tag', s))
@@ -212,6 +225,12 @@ def build(family, p):
                 d = px.callRemote('Mixed', a, b)
             elif kind == 'raise':
                 d = px.callRemote('Boom', a)
+            elif kind == 'list1':
+                d = px.callRemote('One', a)
+            elif kind == 'struct1':
+                d = px.callRemote('Wrap', a)
+            elif kind == 'list2':
+                d = px.callRemote('Two', a, b)
             else:
                 d = px.callRemote('Void')
             d.addCallbacks(lambda v: out.append(('ok', v)), lambda f: out.append(('err', f.value)))
@@ -230,6 +249,15 @@ def build(family, p):
                 check(out[0][0] == 'err' and isinstance(e, error.RemoteError)
                       and e.errName == 'org.txdbus.PythonException.ValueError' and e.message == 'boom',
                       'caller did not receive a RemoteError mirroring the exception')
+            elif kind == 'list1':
+                check(obj.log[0] == ('One', a), 'method ran with different arguments')
+                check(out[0][0] == 'ok' and out[0][1] == [a], 'a one-element array result must arrive as that array')
+            elif kind == 'struct1':
+                check(obj.log[0] == ('Wrap', a), 'method ran with different arguments')
+                check(out[0][0] == 'ok' and out[0][1] == [[a]], 'a one-field struct result must arrive as the list of values')
+            elif kind == 'list2':
+                check(obj.log[0] == ('Two', a, b), 'method ran with different arguments')
+                check(out[0][0] == 'ok' and out[0][1] == [a, b], 'a two-element array result must arrive as that array')
             else:
                 check(out[0] == ('ok', None), 'void method must complete with None')
             reached()
